@@ -105,7 +105,7 @@ func init() {
 		nontrivial: func(res *RunResult) bool {
 			return res.Stats.Replies >= 4
 		},
-		quickRuns:       1200,
+		quickRuns:       4000,
 		thoroughRuns:    100000,
 		quickSeconds:    75,
 		thoroughSeconds: 900,
